@@ -19,6 +19,9 @@ for f in files:
         st = line.strip()
         if intest or st.startswith("//") or st.startswith("assert") or st.startswith("debug_assert") or "fn " in st or st.startswith("#"):
             continue
+        lo, hi = [int(x) for x in os.environ.get("MT_LINES", "1-1000000").split("-")]
+        if not (lo <= i + 1 <= hi):
+            continue
         for a, b in FLIPS:
             if a in line:
                 cands.append((f, i, a, b))
@@ -40,7 +43,7 @@ for n, (f, i, a, b) in enumerate(cands):
     t = subprocess.run(["cargo", "test", "--offline", "-q", "-p", "hcobs"], cwd=WT, env=env, stdout=subprocess.PIPE, stderr=subprocess.STDOUT, text=True, timeout=900)
     tests = "killed" if t.returncode != 0 else "survived"
     e2 = dict(os.environ, VERIF_REPO=WT, VERIF_X_SHARDS="4")
-    x = subprocess.run(["/verif/check", "C07", "--tier", "quick", "--only", "mirx"], cwd="/verif", env=e2, stdout=subprocess.PIPE, stderr=subprocess.STDOUT, text=True)
+    x = subprocess.run(["/verif/check", os.environ.get("MT_CHECK", "C07"), "--tier", "quick", "--only", "mirx"], cwd="/verif", env=e2, stdout=subprocess.PIPE, stderr=subprocess.STDOUT, text=True)
     xv = {0: "survived", 1: "killed", 2: "inconclusive"}.get(x.returncode, str(x.returncode))
     why = ""
     m = re.search(r"^(counterexample|INCONCLUSIVE)[^\n]*", x.stdout, re.M)
